@@ -101,8 +101,10 @@ class C17(Property):
     "fairness imposed by a starvation cap; liveness bound generous, not tight",
     "failing sources/devices are outside the statement and not generated in "
     "deciding configurations",
-    "close(wait=True) with a paused-unstopped or endless-unstopped player is "
-    "specified to wait forever and is not generated"]
+    "close(wait=True) with an endless-unstopped player is specified to wait "
+    "forever and is not generated; with a player left paused by the script "
+    "it is generated, and the only accepted non-returning end is "
+    "main@join(player) | player@go.wait of such a player"]
 
   def setup(self):
     self.lio = audio.install()
